@@ -42,7 +42,14 @@ func TestMain(m *testing.M) {
 	stats.Describe("exploration",
 		"A real identify service (identify.NewIDService) runs on a fake host with a real pstoremem peerstore and event bus inside a synctest bubble; "+
 			"the harness is the remote peer p on up to four fake connections (own non-loopback /24 each; public, private or unroutable remote address) and plays "+
-			"a generated history of open / push / close (Disconnected delivered at once or later, streams reset or left alive) / sleep / IdentifyWait steps. "+
+			"a generated history of open / push / close (Disconnected delivered at once or later, streams reset or left alive) / sleep / IdentifyWait / close-service steps. "+
+			"Service lifecycle is an operation of the history: at one generated point (before the first connection, while connected, between a close and its notification, ...) the identify "+
+			"service is closed (IDService.Close, as a host does before it closes its network) while network, connections and peerstore live on; the rest of the history, the final closes "+
+			"and every bound and lifetime are unchanged, because they are about what the peerstore holds. "+
+			"Address-book capacity is a dimension: in two cases of five the in-memory address book has a small GLOBAL limit of addresses no connection vouches for "+
+			"(pstoremem.WithMaxAddresses 4 / 16 / 64, next to the per-peer cap) and holds that many long-lived addresses of a silent bystander, or 1..30 fewer, so that the limit is reached "+
+			"from the start or while the addresses of p move to a finite lifetime (last close, consumption); the book may then drop or refuse addresses, which every rule of the oracle accepts, "+
+			"but may not leave them on the connected lifetime. "+
 			"The schedule of a disconnect relative to a message being handled is owned by the harness: the service sees its host through a view in which every call about a peer "+
 			"(Network().Connectedness, any peerstore method) is a scheduling point, and an armed-close step makes one connection (often the last one) close, with Disconnected delivered at once "+
 			"and given the chance to be handled completely, inside the next address update made with the connected lifetime, right after the k-th Connectedness answer (k<=3) or right after "+
@@ -58,12 +65,15 @@ func TestMain(m *testing.M) {
 			"and truncated chunks; replies may be delayed around the identify timeout, dribbled, stalled, reset, or fail protocol negotiation. "+
 			"Oracle: the reference model is built by construction from the generator (address classes, record validity, key ownership); see the test comments. "+
 			"NON-TRIVIAL = a consumed message carried material of another peer (key, record, /p2p suffix) or exceeded a cap, or a delivery ended at or after the close of its "+
-			"connection, or an armed close fired (a connection was closed at a harness-chosen call of identify into its host), or a held message was released by the close of its connection. DISTINCT = distinct (step kinds, connection, delays, "+
+			"connection, or an armed close fired (a connection was closed at a harness-chosen call of identify into its host), or a held message was released by the close of its connection, "+
+			"or the last connection closed with addresses in the store after the service had been closed, or on an address book without room for them under its global limit. DISTINCT = distinct (step kinds, connection, delays, "+
 			"message structure) history. FuzzIdentifyStream (seed corpus in the quick tier, coverage-guided campaign in the thorough tier): non-trivial = the bytes were consumed as a message; "+
 			"one bit of its mode byte selects the late schedule (the only connection is gone, Disconnected handled, before identify handles the stream's content; at most 64 addresses may be retained).",
 		"multiaddr parsing is trusted to be injective on the generated templates; address classes are assigned by construction and cross-checked against manet in TestAddressTemplates",
 		"the peerstore is pstoremem (optionally with a key book that trusts its caller, which the KeyBook interface permits, and with a protocol book large enough not to mask identify's own cap); "+
-			"its address book runs with its default, documented per-peer cap of 64 addresses for peers no live connection vouches for, which is the bound asserted for a peer without connection",
+			"its address book runs with its default, documented per-peer cap of 64 addresses for peers no live connection vouches for, which is the bound asserted for a peer without connection; "+
+			"with a small global limit the oracle demands nothing about addresses being KEPT beyond 'what was stored while surely connected does not expire while the connection stays open'",
+			"after IDService.Close the harness keeps using the service's IdentifyWait and installed stream handlers as a host's other components may; the unchanged service handles them as before",
 		"same-instant events race under the Go scheduler; the oracle accepts every order of them",
 		"one authenticated remote peer per case; the other peers are bystanders that never speak",
 	)
@@ -82,6 +92,10 @@ const (
 	stSleep
 	stWait
 	stArmClose // the connection closes at a generated point of identify's next calls into its host (see armPoint)
+	// the identify service is closed (IDService.Close, the first thing BasicHost.Close does) while the
+	// network, its connections and the peerstore live on: connections that close afterwards still leave
+	// the peer's addresses on a finite lifetime
+	stCloseService
 )
 
 // armPoint says where, relative to what identify does with the host it was given, an
@@ -98,7 +112,7 @@ var pointNames = []string{"inside-connected-address-update", "after-connectednes
 // a consumption makes about a dozen calls about p, the handling of a disconnect five
 const maxHostCallK = 16
 
-var stepNames = []string{"open", "push", "close", "sleep", "wait", "close-inside-next-consumption"}
+var stepNames = []string{"open", "push", "close", "sleep", "wait", "close-inside-next-consumption", "close-service"}
 
 const (
 	negoOK = iota
@@ -182,6 +196,10 @@ type scenario struct {
 	bigProtoBook bool
 	preKey       bool
 	otherMask    []int // what each bystander has in the store beforehand
+	// the address book's global limit of addresses no connection vouches for (pstoremem.WithMaxAddresses;
+	// 0: the default of a million, never reached here) and how many such addresses of a bystander it
+	// holds from the start (bookLimit-bookFill is the room left)
+	bookLimit, bookFill int
 	steps        []step
 	longSleep    time.Duration
 }
@@ -225,6 +243,13 @@ func drawScenario(rt *rapid.T) *scenario {
 		sc.otherMask = append(sc.otherMask, rapid.IntRange(0, 31).Draw(rt, "bystander"))
 	}
 	sc.longSleep = []time.Duration{16 * time.Minute, time.Hour, 48 * time.Hour}[rapid.IntRange(0, 2).Draw(rt, "longSleep")]
+	// two cases in five run on an address book with a small global limit that is reached already (no room)
+	// or is reached while the addresses of p move to a finite lifetime (room for 1..30 addresses)
+	sc.bookLimit = []int{0, 0, 0, 4, 16, 64, 16, 0, 64, 0}[rapid.IntRange(0, 9).Draw(rt, "addrBookLimit")]
+	if sc.bookLimit > 0 {
+		room := []int{0, 0, 0, 1, 3, 10, 30, 0}[rapid.IntRange(0, 7).Draw(rt, "addrBookRoom")]
+		sc.bookFill = max(0, sc.bookLimit-room)
+	}
 	T := sc.timeout
 	n := rapid.IntRange(1, 10).Draw(rt, "nsteps")
 	status := []int{} // 1 open, 2 closed (or closing at an instant the generator does not know)
@@ -233,6 +258,7 @@ func drawScenario(rt *rapid.T) *scenario {
 	pushes := map[int]int{}
 	src := 0
 	heldOn := -1 // connection with a held delivery that, as far as the generator knows, is still open
+	svcClosed := false
 	for i := 0; i < n; i++ {
 		var open, all []int
 		for c, s := range status {
@@ -270,6 +296,17 @@ func drawScenario(rt *rapid.T) *scenario {
 			choices = append(choices, stArmClose)
 			if i > 0 {
 				choices = append(choices, stArmClose)
+			}
+		}
+		if !svcClosed {
+			// the service may be closed at any point of the history, more often while connected
+			if i == 0 {
+				// (one history in eight starts with a service that is closed before the first connection)
+				choices = append(choices, stOpen, stOpen, stOpen, stOpen)
+			}
+			choices = append(choices, stCloseService)
+			if len(open) > 0 {
+				choices = append(choices, stCloseService)
 			}
 		}
 		if len(choices) == 0 {
@@ -344,6 +381,9 @@ func drawScenario(rt *rapid.T) *scenario {
 			case ptHostCall:
 				st.k = rapid.IntRange(1, maxHostCallK).Draw(rt, label+"-kth")
 			}
+		case stCloseService:
+			svcClosed = true
+			n++ // an additional operation: the history keeps the length it was drawn with
 		}
 		sc.steps = append(sc.steps, st)
 	}
@@ -352,7 +392,7 @@ func drawScenario(rt *rapid.T) *scenario {
 
 func (sc *scenario) fingerprint() string {
 	var b strings.Builder
-	fmt.Fprintf(&b, "%s/%v/%v/%v/%v/%v|", sc.w.p.Type, sc.timeout, sc.trustingKeys, sc.bigProtoBook, sc.preKey, sc.otherMask)
+	fmt.Fprintf(&b, "%s/%v/%v/%v/%v/%v/%d/%d|", sc.w.p.Type, sc.timeout, sc.trustingKeys, sc.bigProtoBook, sc.preKey, sc.otherMask, sc.bookLimit, sc.bookFill)
 	for _, st := range sc.steps {
 		fmt.Fprintf(&b, "%s:%d:%v:", stepNames[st.kind], st.conn, st.settle)
 		switch st.kind {
@@ -399,7 +439,7 @@ func (sc *scenario) describe() map[string]any {
 		steps = append(steps, s)
 	}
 	return map[string]any{"remoteKey": sc.w.p.Type, "timeout": sc.timeout.String(), "trustingKeyBook": sc.trustingKeys, "bigProtoBook": sc.bigProtoBook,
-		"remoteKeyKnown": sc.preKey, "steps": steps}
+		"remoteKeyKnown": sc.preKey, "addrBookLimit": sc.bookLimit, "addrBookFilledWith": sc.bookFill, "steps": steps}
 }
 
 // ---------------------------------------------------------------------------
@@ -502,6 +542,11 @@ type runner struct {
 	pKeyBytes   []byte
 
 	atRest bool // the previous step was followed by a quiescence point
+
+	svcClosedAt time.Duration // when the identify service was closed (<0: it is running)
+	// coverage: the last connection closed (with addresses in the store) after the service had been
+	// closed / on an address book whose global limit left no room for all of them
+	svcRace, limitHit bool
 
 	// coverage
 	raced, failurePath, consumedInteresting bool
@@ -742,6 +787,7 @@ func (r *runner) doClose(st *step) {
 	cs := r.conns[st.conn]
 	now := r.now()
 	cs.closedAt = now
+	r.noteLastClose(now)
 	r.emu.Lock()
 	r.pendingNote++ // from the close until its notification has been handled
 	r.emu.Unlock()
@@ -763,6 +809,48 @@ func (r *runner) doClose(st *step) {
 		r.h.net.notifyDisconnected(cs.fc)
 		r.notified("close-notified-later")
 	}()
+}
+
+// noteLastClose records coverage facts when a close (at instant at) leaves p without connection.
+func (r *runner) noteLastClose(at time.Duration) {
+	if r.openCount() != 0 {
+		return
+	}
+	n := len(r.ps.Addrs(r.w.p.ID))
+	if r.svcClosedAt >= 0 && at >= r.svcClosedAt {
+		r.label("service-closed:last-connection-closed-afterwards")
+		if n > 0 {
+			r.label("service-closed:last-connection-closed-afterwards:addresses-in-store")
+			r.svcRace = true
+		}
+	}
+	if r.sc.bookLimit > 0 && n > 0 {
+		if n >= r.sc.bookLimit-r.sc.bookFill {
+			// (what p holds without a connection vouching for it counts as well: the room can only be smaller)
+			r.label("addr-book:no-room-for-the-addresses-the-last-close-moves-to-a-finite-lifetime")
+			r.limitHit = true
+		} else {
+			r.label("addr-book:room-for-the-addresses-the-last-close-moves-to-a-finite-lifetime")
+		}
+	}
+}
+
+// doCloseService closes the identify service in the middle of the history, as a host that shuts
+// down does before it closes its network. Everything else lives on: the network keeps delivering
+// notifications to whoever is registered, the stream handlers stay installed, the peerstore is
+// the same. Nothing in the oracle changes: the property's bounds and lifetimes are about what the
+// peerstore holds, and the peerstore outlives the service.
+func (r *runner) doCloseService() {
+	if err := r.ids.Close(); err != nil {
+		r.rt.Fatalf("IDService.Close: %v", err)
+	}
+	r.svcClosedAt = r.now()
+	r.label("service-closed")
+	if r.openCount() > 0 {
+		r.label("service-closed:while-connected")
+	} else if len(r.conns) == 0 {
+		r.label("service-closed:before-the-first-connection")
+	}
 }
 
 // notified is called (on any goroutine) when a Disconnected notification has been handled
@@ -885,6 +973,10 @@ func (r *runner) doArmClose(st *step) {
 
 const armSpin = 3000
 
+// fillerTTL is the lifetime of the addresses that fill the address book: finite (they count
+// towards the global limit), longer than any case runs (ten steps, the long sleep, the tail).
+const fillerTTL = 10000 * time.Hour
+
 // calledFrom reports whether a function whose name ends in fn is on the stack of the
 // calling goroutine (used for coverage labels only: did an armed close fire inside a
 // Disconnected notification the harness was delivering, or inside message handling).
@@ -915,6 +1007,9 @@ func (r *runner) reconcile() {
 		return
 	}
 	r.armedConn.closedAt = at
+	if r.svcClosedAt >= 0 && at >= r.svcClosedAt && r.openCount() == 0 {
+		r.label("service-closed:last-connection-closed-afterwards")
+	}
 	if r.armedKeeps {
 		r.released(r.armedConn, at)
 	}
@@ -1177,6 +1272,17 @@ func (r *runner) run() {
 	if sc.bigProtoBook {
 		psOpts = append(psOpts, pstoremem.WithMaxProtocols(1<<20))
 	}
+	if sc.bookLimit > 0 {
+		psOpts = append(psOpts, pstoremem.WithMaxAddresses(sc.bookLimit))
+		r.label(fmt.Sprintf("addr-book:global-limit-%d", sc.bookLimit))
+		if sc.bookFill == sc.bookLimit {
+			r.label("addr-book:limit-reached-from-the-start")
+		} else {
+			r.label("addr-book:room-left-at-the-start")
+		}
+	} else {
+		r.label("addr-book:default-global-limit")
+	}
 	base, err := pstoremem.NewPeerstore(psOpts...)
 	if err != nil {
 		rt.Fatalf("peerstore: %v", err)
@@ -1222,8 +1328,21 @@ func (r *runner) run() {
 	if sc.preKey {
 		base.AddPubKey(w.p.ID, w.p.Pub)
 	}
+	filler := keys.Ed(12)
+	if sc.bookFill > 0 {
+		// addresses of a silent bystander that no connection vouches for, learnt elsewhere (DHT, ...), on a
+		// lifetime longer than any case: they take up the address book's global limit
+		var fa []ma.Multiaddr
+		for i := 0; i < sc.bookFill; i++ {
+			fa = append(fa, ma.StringCast(fmt.Sprintf("/ip4/7.9.%d.1/tcp/1", i)))
+		}
+		base.AddAddrs(filler.ID, fa, fillerTTL)
+		if n := len(base.Addrs(filler.ID)); n != sc.bookFill {
+			panic(fmt.Sprintf("harness: the address book holds %d of the %d filler addresses", n, sc.bookFill))
+		}
+	}
 	r.before = map[peer.ID]string{}
-	known := []peer.ID{w.local.ID}
+	known := []peer.ID{w.local.ID, filler.ID}
 	for _, o := range w.others {
 		known = append(known, o.ID)
 	}
@@ -1329,6 +1448,8 @@ func (r *runner) run() {
 			}
 		case stWait:
 			r.doWait(st)
+		case stCloseService:
+			r.doCloseService()
 		}
 		r.atRest = false
 		if st.settle {
@@ -1446,7 +1567,7 @@ func TestIdentifyAttribution(t *testing.T) {
 	hx.Check(t, 4000, 200000, 0, func(rt *rapid.T) {
 		sc := drawScenario(rt)
 		r := &runner{t: t, rt: rt, sc: sc, w: sc.w, T: sc.timeout, allowed: map[string]struct{}{}, protos: map[string]struct{}{}, usableRec: map[string]struct{}{},
-			firedAt: -1, unconnBase: -1, labels: map[string]struct{}{}, asyncLabels: map[string]struct{}{}}
+			firedAt: -1, unconnBase: -1, svcClosedAt: -1, labels: map[string]struct{}{}, asyncLabels: map[string]struct{}{}}
 		hx.Bubble(t, rt, r.run)
 
 		// race position: a delivery that ends at or after the close of its connection
@@ -1509,7 +1630,7 @@ func TestIdentifyAttribution(t *testing.T) {
 			labels = append(labels, "wait-released-by-failure")
 		}
 		sort.Strings(labels)
-		nontrivial := r.consumedInteresting || r.raced
+		nontrivial := r.consumedInteresting || r.raced || r.svcRace || r.limitHit
 		stats.Case(name, sc.fingerprint(), nontrivial, labels...)
 		if stats.WantSample(name) {
 			stats.Sample(name, sc.describe())
